@@ -10,35 +10,56 @@ open Revm.Proofs.Memory (WF)
 section host
 variable {s0 : IState}
 
-theorem hostCall_good {β} (hs : Start s0) (pre : M (HostOp × β)) (post : β → HostResp → M Unit)
+variable {N : IState → Prop} {A : Action → IState → Prop}
+
+theorem hostCall_good {β} (hN : ∀ s', Done1 s0 s' → N s') (pre : M (HostOp × β)) (post : β → HostResp → M Unit)
     (P : β → IState → Prop)
     (hpre : Exec.Sat (pre s0) (Halt s0) (fun p s' => P p.2 s'))
     (hpost : ∀ b s' r, P b s' → RespOk r →
       Exec.Sat (post b r s') (Halt s0) (fun _ s'' => Done1 s0 s'')) :
-    Good s0 (hostCall pre post s0) := by
+    GoodP (Halt s0) N A (hostCall pre post s0) := by
   unfold hostCall
   cases hp : pre s0 with
   | ok p s' =>
     obtain ⟨op, b⟩ := p
     rw [hp] at hpre
     have hb := sat_ok_inv hpre
-    exact .host (fun r hr => toDone_good hs (hpost b s' r hb hr))
+    exact .host (fun r hr => toDoneP hN (hpost b s' r hb hr))
   | halt r o s' => rw [hp] at hpre; exact .pure (.halt (sat_halt_inv hpre))
   | fault f => rw [hp] at hpre; exact (sat_fault_inv hpre).elim
 
-theorem hostCallAction_good {β} (hs : Start s0) (pre : M (HostOp × β)) (post : β → HostResp → M Action)
-    (P : β → IState → Prop)
+theorem hostCallAction_good {β} {QA : Action → IState → Prop} (hA : ∀ a s', QA a s' → A a s')
+    (pre : M (HostOp × β))
+    (post : β → HostResp → M Action) (P : β → IState → Prop)
     (hpre : Exec.Sat (pre s0) (Halt s0) (fun p s' => P p.2 s'))
     (hpost : ∀ b s' r, P b s' → RespOk r →
-      Exec.Sat (post b r s') (Halt s0) (fun a s'' => ActRel s0 a s'')) :
-    Good s0 (hostCallAction pre post s0) := by
+      Exec.Sat (post b r s') (Halt s0) (fun a s'' => QA a s'')) :
+    GoodP (Halt s0) N A (hostCallAction pre post s0) := by
   unfold hostCallAction
   cases hp : pre s0 with
   | ok p s' =>
     obtain ⟨op, b⟩ := p
     rw [hp] at hpre
     have hb := sat_ok_inv hpre
-    exact .host (fun r hr => toDoneAction_good hs (hpost b s' r hb hr))
+    exact .host (fun r hr => toDoneActionQ hA (hpost b s' r hb hr))
+  | halt r o s' => rw [hp] at hpre; exact .pure (.halt (sat_halt_inv hpre))
+  | fault f => rw [hp] at hpre; exact (sat_fault_inv hpre).elim
+
+theorem hostCallOptAction_good {β} (hN : ∀ s', Done1 s0 s' → N s') (hA : ∀ a s', ActRel s0 a s' → A a s')
+    (pre : M (HostOp × β)) (post : β → HostResp → M (Option Action)) (P : β → IState → Prop)
+    (hpre : Exec.Sat (pre s0) (Halt s0) (fun p s' => P p.2 s'))
+    (hpost : ∀ b s' r, P b s' → RespOk r →
+      Exec.Sat (post b r s') (Halt s0) (fun oa s'' => match oa with
+        | some a => ActRel s0 a s''
+        | none => Done1 s0 s'')) :
+    GoodP (Halt s0) N A (hostCallOptAction pre post s0) := by
+  unfold hostCallOptAction
+  cases hp : pre s0 with
+  | ok p s' =>
+    obtain ⟨op, b⟩ := p
+    rw [hp] at hpre
+    have hb := sat_ok_inv hpre
+    exact .host (fun r hr => toDoneOptActionP hN hA (hpost b s' r hb hr))
   | halt r o s' => rw [hp] at hpre; exact .pure (.halt (sat_halt_inv hpre))
   | fault f => rw [hp] at hpre; exact (sat_fault_inv hpre).elim
 
@@ -51,10 +72,11 @@ theorem chargePush_sat {k : Nat} {st ne : Bool} {L : Nat} {s : IState} (h : Rel 
   have h1' := h1.mkStrict (by omega)
   exact sat_mono (push_sat h1' v) (fun _ _ h2 => done1_of h2 (by omega))
 
-theorem balanceI_good (hs : Start s0) : Good s0 (balanceI s0) := by
+theorem balanceI_good (hb : Base s0) (hN : ∀ s', Done1 s0 s' → N s') :
+    GoodP (Halt s0) N A (balanceI s0) := by
   unfold balanceI
-  refine hostCall_good hs _ _ (fun _ s' => Rel 0 true false 0 s0 s') ?_ ?_
-  · refine sat_bind (popAddress_sat hs.rel) ?_
+  refine hostCall_good hN _ _ (fun _ s' => Rel 0 true false 0 s0 s') ?_ ?_
+  · refine sat_bind (popAddress_sat hb.rel) ?_
     intro a s1 h1
     exact sat_pure h1
   · intro _ s1 r h1 _
@@ -64,12 +86,13 @@ theorem balanceI_good (hs : Start s0) : Good s0 (balanceI s0) := by
     rintro _ _ ⟨rfl, rfl⟩
     exact chargePush_sat h1 _ _ (by have := balanceGas_ge s1.spec r.isCold; omega)
 
-theorem selfbalanceI_good (hs : Start s0) : Good s0 (selfbalanceI s0) := by
+theorem selfbalanceI_good (hb : Base s0) (hN : ∀ s', Done1 s0 s' → N s') :
+    GoodP (Halt s0) N A (selfbalanceI s0) := by
   unfold selfbalanceI
-  refine hostCall_good hs _ _ (fun _ s' => Rel (0 + GasCalc.LOW) true false 0 s0 s') ?_ ?_
-  · refine sat_bind (check_sat hs.rel _) ?_
+  refine hostCall_good hN _ _ (fun _ s' => Rel (0 + GasCalc.LOW) true false 0 s0 s') ?_ ?_
+  · refine sat_bind (check_sat hb.rel _) ?_
     rintro _ _ rfl
-    refine sat_bind (gasCharge_sat hs.rel _) ?_
+    refine sat_bind (gasCharge_sat hb.rel _) ?_
     intro _ s1 h1
     refine sat_bind (getS_sat h1) ?_
     rintro _ _ ⟨rfl, rfl⟩
@@ -79,10 +102,11 @@ theorem selfbalanceI_good (hs : Start s0) : Good s0 (selfbalanceI s0) := by
     rintro _ _ ⟨rfl, _⟩
     exact sat_mono (push_sat h1 _) (fun _ _ h2 => done1_of h2 (by decide))
 
-theorem extcodesizeI_good (hs : Start s0) : Good s0 (extcodesizeI s0) := by
+theorem extcodesizeI_good (hb : Base s0) (hN : ∀ s', Done1 s0 s' → N s') :
+    GoodP (Halt s0) N A (extcodesizeI s0) := by
   unfold extcodesizeI
-  refine hostCall_good hs _ _ (fun _ s' => Rel 0 true false 0 s0 s') ?_ ?_
-  · refine sat_bind (popAddress_sat hs.rel) ?_
+  refine hostCall_good hN _ _ (fun _ s' => Rel 0 true false 0 s0 s') ?_ ?_
+  · refine sat_bind (popAddress_sat hb.rel) ?_
     intro a s1 h1
     exact sat_pure h1
   · intro _ s1 r h1 _
@@ -92,12 +116,13 @@ theorem extcodesizeI_good (hs : Start s0) : Good s0 (extcodesizeI s0) := by
     rintro _ _ ⟨rfl, rfl⟩
     exact chargePush_sat h1 _ _ (by have := extcodesizeGas_ge s1.spec r.isCold; omega)
 
-theorem extcodehashI_good (hs : Start s0) : Good s0 (extcodehashI s0) := by
+theorem extcodehashI_good (hb : Base s0) (hN : ∀ s', Done1 s0 s' → N s') :
+    GoodP (Halt s0) N A (extcodehashI s0) := by
   unfold extcodehashI
-  refine hostCall_good hs _ _ (fun _ s' => Rel 0 true false 0 s0 s') ?_ ?_
-  · refine sat_bind (check_sat hs.rel _) ?_
+  refine hostCall_good hN _ _ (fun _ s' => Rel 0 true false 0 s0 s') ?_ ?_
+  · refine sat_bind (check_sat hb.rel _) ?_
     rintro _ _ rfl
-    refine sat_bind (popAddress_sat hs.rel) ?_
+    refine sat_bind (popAddress_sat hb.rel) ?_
     intro a s1 h1
     exact sat_pure h1
   · intro _ s1 r h1 _
@@ -107,10 +132,11 @@ theorem extcodehashI_good (hs : Start s0) : Good s0 (extcodehashI s0) := by
     rintro _ _ ⟨rfl, rfl⟩
     exact chargePush_sat h1 _ _ (by have := extcodehashGas_ge s1.spec r.isCold; omega)
 
-theorem extcodecopyI_good (hs : Start s0) : Good s0 (extcodecopyI s0) := by
+theorem extcodecopyI_good (hb : Base s0) (hN : ∀ s', Done1 s0 s' → N s') :
+    GoodP (Halt s0) N A (extcodecopyI s0) := by
   unfold extcodecopyI
-  refine hostCall_good hs _ _ (fun _ s' => Rel 0 true false 0 s0 s') ?_ ?_
-  · refine sat_bind (popAddress_sat hs.rel) ?_
+  refine hostCall_good hN _ _ (fun _ s' => Rel 0 true false 0 s0 s') ?_ ?_
+  · refine sat_bind (popAddress_sat hb.rel) ?_
     intro a s1 h1
     refine sat_bind (pop3_sat h1) ?_
     intro args s2 h2
@@ -135,10 +161,11 @@ theorem extcodecopyI_good (hs : Start s0) : Good s0 (extcodecopyI s0) := by
       intro _ s4 h4
       exact done1_of h4 (by omega)
 
-theorem blockhashI_good (hs : Start s0) : Good s0 (blockhashI s0) := by
+theorem blockhashI_good (hb : Base s0) (hN : ∀ s', Done1 s0 s' → N s') :
+    GoodP (Halt s0) N A (blockhashI s0) := by
   unfold blockhashI
-  refine hostCall_good hs _ _ (fun _ s' => Rel (0 + GasCalc.BLOCKHASH) true true 0 s0 s') ?_ ?_
-  · refine sat_bind (gasCharge_sat hs.rel _) ?_
+  refine hostCall_good hN _ _ (fun _ s' => Rel (0 + GasCalc.BLOCKHASH) true true 0 s0 s') ?_ ?_
+  · refine sat_bind (gasCharge_sat hb.rel _) ?_
     intro _ s1 h1
     refine sat_bind (popTop1_sat h1) ?_
     intro n s2 h2
@@ -148,10 +175,11 @@ theorem blockhashI_good (hs : Start s0) : Good s0 (blockhashI s0) := by
     rintro _ _ ⟨rfl, _⟩
     exact sat_mono (setTop_sat h1 _) (fun _ _ h2 => done1_of h2 (by decide))
 
-theorem sloadI_good (hs : Start s0) : Good s0 (sloadI s0) := by
+theorem sloadI_good (hb : Base s0) (hN : ∀ s', Done1 s0 s' → N s') :
+    GoodP (Halt s0) N A (sloadI s0) := by
   unfold sloadI
-  refine hostCall_good hs _ _ (fun _ s' => Rel 0 true true 0 s0 s') ?_ ?_
-  · refine sat_bind (popTop1_sat hs.rel) ?_
+  refine hostCall_good hN _ _ (fun _ s' => Rel 0 true true 0 s0 s') ?_ ?_
+  · refine sat_bind (popTop1_sat hb.rel) ?_
     intro idx s1 h1
     refine sat_bind (getS_sat h1) ?_
     rintro _ _ ⟨rfl, rfl⟩
@@ -167,12 +195,13 @@ theorem sloadI_good (hs : Start s0) : Good s0 (sloadI s0) := by
     intro _ s3 h3
     exact done1_of h3 (by have := sloadCost_ge s1.spec r.isCold; omega)
 
-theorem sstoreI_good (hs : Start s0) : Good s0 (sstoreI s0) := by
+theorem sstoreI_good (hb : Base s0) (hN : ∀ s', Done1 s0 s' → N s') :
+    GoodP (Halt s0) N A (sstoreI s0) := by
   unfold sstoreI
-  refine hostCall_good hs _ _ (fun _ s' => Rel 0 true false 0 s0 s') ?_ ?_
-  · refine sat_bind (requireNonStatic_sat hs.rel) ?_
+  refine hostCall_good hN _ _ (fun _ s' => Rel 0 true false 0 s0 s') ?_ ?_
+  · refine sat_bind (requireNonStatic_sat hb.rel) ?_
     rintro _ _ rfl
-    refine sat_bind (pop2_sat hs.rel) ?_
+    refine sat_bind (pop2_sat hb.rel) ?_
     rintro ⟨idx, v⟩ s1 h1
     refine sat_bind (getS_sat h1) ?_
     rintro _ _ ⟨rfl, rfl⟩
@@ -189,14 +218,15 @@ theorem sstoreI_good (hs : Start s0) : Good s0 (sstoreI s0) := by
     intro _ s3 h3
     exact done1_of h3 (by omega)
 
-theorem tstoreI_good (hs : Start s0) : Good s0 (tstoreI s0) := by
+theorem tstoreI_good (hb : Base s0) (hN : ∀ s', Done1 s0 s' → N s') :
+    GoodP (Halt s0) N A (tstoreI s0) := by
   unfold tstoreI
-  refine hostCall_good hs _ _ (fun _ s' => Done1 s0 s') ?_ ?_
-  · refine sat_bind (check_sat hs.rel _) ?_
+  refine hostCall_good hN _ _ (fun _ s' => Done1 s0 s') ?_ ?_
+  · refine sat_bind (check_sat hb.rel _) ?_
     rintro _ _ rfl
-    refine sat_bind (requireNonStatic_sat hs.rel) ?_
+    refine sat_bind (requireNonStatic_sat hb.rel) ?_
     rintro _ _ rfl
-    refine sat_bind (gasCharge_sat hs.rel _) ?_
+    refine sat_bind (gasCharge_sat hb.rel _) ?_
     intro _ s1 h1
     refine sat_bind (pop2_sat h1) ?_
     rintro ⟨idx, v⟩ s2 h2
@@ -206,13 +236,14 @@ theorem tstoreI_good (hs : Start s0) : Good s0 (tstoreI s0) := by
   · intro _ s1 r h1 _
     exact sat_pure h1
 
-theorem tloadI_good (hs : Start s0) : Good s0 (tloadI s0) := by
+theorem tloadI_good (hb : Base s0) (hN : ∀ s', Done1 s0 s' → N s') :
+    GoodP (Halt s0) N A (tloadI s0) := by
   unfold tloadI
-  refine hostCall_good hs _ _
+  refine hostCall_good hN _ _
     (fun _ s' => Rel (0 + GasCalc.WARM_STORAGE_READ_COST) true true 0 s0 s') ?_ ?_
-  · refine sat_bind (check_sat hs.rel _) ?_
+  · refine sat_bind (check_sat hb.rel _) ?_
     rintro _ _ rfl
-    refine sat_bind (gasCharge_sat hs.rel _) ?_
+    refine sat_bind (gasCharge_sat hb.rel _) ?_
     intro _ s1 h1
     refine sat_bind (popTop1_sat h1) ?_
     intro idx s2 h2
@@ -222,12 +253,13 @@ theorem tloadI_good (hs : Start s0) : Good s0 (tloadI s0) := by
   · intro _ s1 r h1 _
     exact sat_mono (setTop_sat h1 _) (fun _ _ h2 => done1_of h2 (by decide))
 
-theorem logI_good (hs : Start s0) (n : Nat) : Good s0 (logI n s0) := by
+theorem logI_good (hb : Base s0) (hN : ∀ s', Done1 s0 s' → N s') (n : Nat) :
+    GoodP (Halt s0) N A (logI n s0) := by
   unfold logI
-  refine hostCall_good hs _ _ (fun _ s' => Done1 s0 s') ?_ ?_
-  · refine sat_bind (requireNonStatic_sat hs.rel) ?_
+  refine hostCall_good hN _ _ (fun _ s' => Done1 s0 s') ?_ ?_
+  · refine sat_bind (requireNonStatic_sat hb.rel) ?_
     rintro _ _ rfl
-    refine sat_bind (pop2_sat hs.rel) ?_
+    refine sat_bind (pop2_sat hb.rel) ?_
     rintro ⟨offset, len⟩ s1 h1
     refine sat_bind (asUsizeOrFail_sat h1 len _) ?_
     rintro len' _ ⟨rfl, hlen⟩
@@ -253,12 +285,13 @@ theorem logI_good (hs : Start s0) (n : Nat) : Good s0 (logI n s0) := by
   · intro _ s1 r h1 _
     exact sat_pure h1
 
-theorem selfdestructI_good (hs : Start s0) : Good s0 (selfdestructI s0) := by
+theorem selfdestructI_good (hb : Base s0) (hN : ∀ s', Done1 s0 s' → N s') :
+    GoodP (Halt s0) N A (selfdestructI s0) := by
   unfold selfdestructI
-  refine hostCall_good hs _ _ (fun _ s' => Rel 0 true false 0 s0 s') ?_ ?_
-  · refine sat_bind (requireNonStatic_sat hs.rel) ?_
+  refine hostCall_good hN _ _ (fun _ s' => Rel 0 true false 0 s0 s') ?_ ?_
+  · refine sat_bind (requireNonStatic_sat hb.rel) ?_
     rintro _ _ rfl
-    refine sat_bind (popAddress_sat hs.rel) ?_
+    refine sat_bind (popAddress_sat hb.rel) ?_
     intro t s1 h1
     refine sat_bind (getS_sat h1) ?_
     rintro _ _ ⟨rfl, rfl⟩
@@ -281,11 +314,11 @@ theorem selfdestructI_good (hs : Start s0) : Good s0 (selfdestructI s0) := by
 
 /-! ### KECCAK256 -/
 
-theorem keccakPre_sat (hs : Start s0) :
+theorem keccakPre_sat (hb : Base s0) :
     Exec.Sat (keccakPre s0) (Halt s0)
       (fun _ s' => ∃ k L, 1 ≤ k ∧ Rel k true true L s0 s') := by
   unfold keccakPre
-  refine sat_bind (popTop2_sat hs.rel) ?_
+  refine sat_bind (popTop2_sat hb.rel) ?_
   rintro ⟨offset, len⟩ s1 h1
   refine sat_bind (asUsizeOrFail_sat h1 len _) ?_
   rintro len' _ ⟨rfl, hlen⟩
@@ -303,18 +336,19 @@ theorem keccakPre_sat (hs : Start s0) :
     rintro data _ ⟨rfl, _⟩
     exact sat_pure ⟨_, _, by omega, h3⟩
 
-theorem keccak256I_good (hs : Start s0) : Good s0 (keccak256I s0) := by
+theorem keccak256I_good (hb : Base s0) (hN : ∀ s', Done1 s0 s' → N s') :
+    GoodP (Halt s0) N A (keccak256I s0) := by
   unfold keccak256I
-  have hpre := keccakPre_sat hs
+  have hpre := keccakPre_sat hb
   cases hp : keccakPre s0 with
   | ok d s' =>
     rw [hp] at hpre
     obtain ⟨k, L, hk, hr⟩ := sat_ok_inv hpre
     cases d with
     | none =>
-      exact .pure (toDone_good hs (sat_mono (setTop_sat hr _) (fun _ _ h2 => done1_of h2 hk)))
+      exact .pure (toDoneP hN (sat_mono (setTop_sat hr _) (fun _ _ h2 => done1_of h2 hk)))
     | some data =>
-      exact .host (fun r _ => toDone_good hs (sat_mono (setTop_sat hr _) (fun _ _ h2 => done1_of h2 hk)))
+      exact .host (fun r _ => toDoneP hN (sat_mono (setTop_sat hr _) (fun _ _ h2 => done1_of h2 hk)))
   | halt r o s' => rw [hp] at hpre; exact .pure (.halt (sat_halt_inv hpre))
   | fault f => rw [hp] at hpre; exact (sat_fault_inv hpre).elim
 
